@@ -22,7 +22,7 @@ FLOORS = {'quick': {'view-ctrlpts': 800, 'view-weights': 800, 'view-ctrlptsw': 8
                     'convert': 100, 'grid-weight': 150},
           'thorough': {'view-ctrlpts': 8000, 'view-ctrlptsw': 8000, 'convert': 1000}}
 MANDATORY_TAGS = ['pdim1', 'pdim2', 'pdim3', 'op:restructure', 'op:ctrlpts', 'op:weights', 'op:ctrlptsw', 'op:set_ctrlpts', 'op:scaleW',
-                  'read-then-write', 'grid', 'convert', 'files:non-square', 'write-back-kept-weights', 'write-back-kept-ctrlpts', 'convert:unnormalized']
+                  'read-then-write', 'grid', 'convert', 'files:non-square', 'write-back-kept-weights', 'write-back-kept-ctrlpts', 'convert:unnormalized', 'grid:bumps-after-read']
 TECHNIQUE = ("runtime monitoring: shadow-model oracle (P, W) compared with all three views after every step of seeded "
              "setter/getter histories; exact-product oracles on the helper conversions; reference-model evaluation for "
              "conversions and weight scaling")
@@ -288,7 +288,7 @@ def check_convert(case, ctx):
 def check_grid(case, ctx):
     from geomdl import CPGen
     rng = random.Random(case['seed'])
-    nu, nv = rng.randint(1, 5), rng.randint(1, 5)
+    nu, nv = rng.randint(1, 6), rng.randint(1, 6)
     if nu == nv:
         nv = nu + 1
     ctx.tag('grid')
@@ -321,6 +321,15 @@ def check_grid(case, ctx):
     ok = all(close(gr2[i][j], [c * W2[j + i * cols] for c in base[i][j]] + [W2[j + i * cols]]) for i in range(rows) for j in range(cols))
     ctx.check(ok, 'grid/stale-after-reweight', 'grid read after a second weight assignment still shows the old weights',
               what='grid-weight')
+    if rows >= 4 and cols >= 4 and rng.random() < 0.7:
+        # the unweighted grid changes under the weighted one (bumps edits z-values): the weighted view must follow
+        ctx.tag('grid:bumps-after-read')
+        g.bumps(1, bump_height=rng.choice([3.0, -2.0]), base_extent=1)
+        base = [[list(p) for p in row] for row in CPGen.Grid.grid.fget(g)]
+        grb = g.grid
+        ok = all(close(grb[i][j], [c * W2[j + i * cols] for c in base[i][j]] + [W2[j + i * cols]]) for i in range(rows) for j in range(cols))
+        ctx.check(ok, 'grid/stale-after-bumps', 'GridWeighted.grid read after bumps() still shows the grid points as they were before',
+                  what='grid-weight')
     g.weight = 2.5
     gr3 = g.grid
     ctx.check(all(close(gr3[i][j], [c * 2.5 for c in base[i][j]] + [2.5]) for i in range(rows) for j in range(cols)),
@@ -334,7 +343,7 @@ def check_files(case, ctx):
     import tempfile
     from geomdl import compatibility
     rng = random.Random(case['seed'])
-    nu, nv = rng.randint(1, 5), rng.randint(1, 5)
+    nu, nv = rng.randint(1, 6), rng.randint(1, 6)
     ctx.tag('files', 'files:square' if nu == nv else 'files:non-square')
     ctx.nontriv(True)
     grid = [[[float(rng.randint(-9, 9)), rng.uniform(-5, 5), rng.uniform(-5, 5), rng.choice([1.0, 0.5, 2.0, rng.uniform(0.2, 4)])]
